@@ -52,6 +52,9 @@ class Ctx:
     def unit_names(self, want=None):
         names = QUICK_UNITS if self.tier == "quick" else THOROUGH_UNITS
         names = [n for n in names if os.path.exists(facts.UNITS[n][0])]
+        # the C++11 macro-API unit is analysed only by rules that ask for it (rules written against the C++14 code
+        # paths do not apply to the C++11 shims)
+        names = [n for n in names if n != "cpp11" or getattr(want, "with_cpp11", False)]
         if want is not None:
             names = [n for n in names if want(n)]
         return names
